@@ -16,11 +16,11 @@ CLAIMS = {
          "Trusts go/ssa; field effects are attributed by declared struct type; xor algebra (order independence) is not mechanised.",
          "DESIGN.md §3 C04"),
  "C17": ("transitive effect analysis (reads/writes/globals/nondeterminism) over the VTA call-graph closure of every eval.Eval instance; AST mirror-sibling comparison; def-use analysis of table indexes (flip on one colour only) and of bit scans (order independence)",
-         "The independence sentence of the property is decided completely: the closure of Eval reads only Pieces, Colors, SquaresToPiece, STM, FiftyCnt of the board, stores to no board field, coefficient or package variable, reads only init-time-immutable tables and reaches no nondeterminism source. Colour symmetry is decided where the two colours are spelled out side by side (sibling mirror rule), for perspective flips (every coefficient-table index computed from a square or rank is flipped for exactly one colour) and for bit-scan order (LowestSet only in strip-until-empty loops or on single-bit sets); symmetry of the remaining shared helper arithmetic is not decided.",
+         "The independence sentence of the property is decided completely: the closure of Eval reads only Pieces, Colors, SquaresToPiece, STM, FiftyCnt of the board, stores to no board field, coefficient or package variable, reads only init-time-immutable tables and reaches no nondeterminism source. Colour symmetry is decided where the two colours are spelled out side by side (sibling mirror rule), for perspective flips (every coefficient-table index computed from a square or rank is flipped for exactly one colour) for bit-scan order (LowestSet only in strip-until-empty loops or on single-bit sets) and for loops over the two colours (nothing but symmetric accumulation is carried from White's iteration into Black's, R7); symmetry of the remaining shared helper arithmetic is not decided.",
          "Trusts go/ssa + VTA (over-approximate dynamic calls); no reflect/unsafe in the closure (checked).",
          "DESIGN.md §3 C17"),
  "C03": ("effect sets (make/undo write-set mirror, single writer of the hash history) + constant evaluation of the Reverse token layout + reaching-store analysis (save-before-clobber) + getter/setter sibling pairing + post-dominance (one push/pop per call) + PAIR typestate at consumers",
-         "Structural necessary conditions decided over all paths of MakeMove/UndoMove/MakeNullMove/UndoNullMove and their consumers: every field changed by a make is restored by its undo, from a token field that cannot overlap another, that was filled before the field was overwritten and is read back in the matching form; the hash history is pushed/popped exactly once per call; castling and promotion are mirrored. A violation implies a move whose make+undo does not return the identical position. Snapshot equality for concrete positions is not decided.",
+         "Structural necessary conditions decided over all paths of MakeMove/UndoMove/MakeNullMove/UndoNullMove and their consumers: every field changed by a make is restored by its undo, from a token field that cannot overlap another, that was filled before the field was overwritten and is read back in the matching form; the hash history is pushed/popped exactly once per call; castling and promotion are mirrored; a field the undo restores relative to its current value (side to move, fullmove counter) is updated by the make with the inverse operation exactly once on every path, both sides reading the operand in the same state (R9). A violation implies a move whose make+undo does not return the identical position. Snapshot equality for concrete positions is not decided.",
          "Trusts go/ssa and go/types constant evaluation; token setters are assumed to be called with values inside the declared range (widths are checked against the type ranges).",
          "DESIGN.md §3 C03"),
  "C02": ("condition-atom analysis over SSA (which From/To/moved/captured tests guard each state update), reaching-store ordering, constant geometry of castling squares, dominance of the UCI gate, narrow-counter bound check",
@@ -44,7 +44,7 @@ CLAIMS = {
          "Mathematical-integer arithmetic under |field| <= 10^12 (assumption listed in evidence); prover is incomplete by design: unprovable => undecided, never silently passed; violations only with a concrete in-domain counterexample.",
          "DESIGN.md §3 C14, §2 H"),
  "C20": ("SSA shape recognition with derived roles: tiling range iterators, Feistel round invertibility by def-use independence and width arithmetic, cycle-walking guard analysis, byte-accounting path analysis between reader and manifest builder, writer/reader sibling agreement on offsets",
-         "Structural necessary (and for the Feistel/cycle-walk part also sufficient) conditions: Batches/Chunks tile their range; every Feistel round is (L,R)<-(R, L xor g(R)) with complementary half widths and an even round count; shuffleIndex cycle-walks within the next power of two and returns only values < n; every byte the line reader consumes is accounted in the manifest offsets; Chunk.Read slices exactly what NewChunker recorded. Found and fixed: F-4 (blank lines shifted all later offsets). I/O behaviour and shuffle quality are not decided.",
+         "Structural necessary (and for the Feistel/cycle-walk part also sufficient) conditions: Batches/Chunks tile their range; every Feistel round is (L,R)<-(R, L xor g(R)) with complementary half widths and an even round count; shuffleIndex cycle-walks within the next power of two and returns only values < n; every byte the line reader consumes is accounted in the manifest offsets; Chunk.Read slices exactly what NewChunker recorded, reads into a buffer owned by its chunk and withholds a line only on exhaustion or the file's own error (a short-read guard must not fire on an exact read). Found and fixed: F-4 (blank lines shifted all later offsets). I/O behaviour and shuffle quality are not decided.",
          "Trusts go/ssa; the tuner's server/client glue does not type-check offline and is not analysed.",
          "DESIGN.md §3 C20, §4 F-4"),
  "C15": ("constant/layout evaluation (types.Sizes, lane constants recognised from SSA), sibling comparison of probe vs store addressing, symbolic partition of the score axis for the mate re-basing mirror, def-use analysis of lane bookkeeping in Insert, single-writer effect sets, resize bound arithmetic",
@@ -64,7 +64,7 @@ CLAIMS = {
          "Trusts go/ssa; bufIx arithmetic is not decided.",
          "DESIGN.md §3 C07"),
  "C08": ("transitive nondeterminism/effect audit over the VTA closure of Search.Go with forward taint of wall-clock values (data and control dependence), guard analysis of the node counter, reader census of the soft limits",
-         "Structural necessary conditions: the only nondeterminism sources reachable from Search.Go are the wall clock (whose values reach only the info line, Counters.Time and the soft-limit test), the two channel polls and the output hand-off; no package-level state is written; the node counter is only incremented, under Nodes == -1 or Counters.Nodes < Nodes; soft limits are consulted only between iterations and a limit that is not set (<= 0) can never end the search. what Go returns is decided by completed iterations only (a kept move keeps its ponder move). Equality of two runs is not decided.",
+         "Structural necessary conditions: the only nondeterminism sources reachable from Search.Go are the wall clock (whose values reach only the info line, Counters.Time and the soft-limit test), the two channel polls and the output hand-off; no package-level state is written; the node counter is only incremented, under Nodes == -1 or Counters.Nodes < Nodes; soft limits are consulted only between iterations and a limit that is not set (<= 0) can never end the search. what Go returns is decided by completed iterations only (a kept move keeps its ponder move), and a soft stop is taken only with a move in hand, as the hard-budget replay's fallback presumes. Equality of two runs is not decided.",
          "VTA over-approximates dynamic calls; std callees outside time/rand/runtime/os are taken to be deterministic.",
          "DESIGN.md §3 C08"),
  "C18": ("SSA loop model of the swap algorithm (tests, back edges, phis), piece-attack pairing, must-dataflow for least-valuable-attacker order with fixpoint meaning of the start markers, parity/balance evaluators for the early exits, occupancy dataflow for x-ray refreshes and entry bookkeeping",
